@@ -173,7 +173,7 @@ func (e *tcpEnv) exec(op string) string {
 	}
 	// read until the server closes (handshake response, heartbeats are discarded)
 	eof := 0
-	conn.SetReadDeadline(time.Now().Add(5 * time.Second))
+	conn.SetReadDeadline(time.Now().Add(tcpReadWait))
 	if _, err := io.Copy(io.Discard, conn); err == nil {
 		eof = 1
 	} else if ne, ok := err.(net.Error); !ok || !ne.Timeout() {
@@ -183,7 +183,8 @@ func (e *tcpEnv) exec(op string) string {
 	conn.Close()
 	var ev, ow string
 	g := 0
-	for i := 0; i < 1500; i++ {
+	settled := false
+	for i := 0; i < tcpPolls; i++ {
 		e.mu.Lock()
 		s := e.last
 		if s != nil {
@@ -192,15 +193,27 @@ func (e *tcpEnv) exec(op string) string {
 		e.mu.Unlock()
 		g = runtime.NumGoroutine() - base
 		if strings.HasSuffix(ev, "R") && strings.HasSuffix(ow, "r11") && g <= 0 {
+			settled = true
 			break
 		}
 		time.Sleep(2 * time.Millisecond)
+	}
+	if !settled {
+		// something really does not end: do not spend 10 s on every further connection
+		tcpPolls = 150
+		tcpReadWait = time.Second
 	}
 	if g < 0 {
 		g = 0
 	}
 	return fmt.Sprintf("ev=%s,ow=%s,eof=%d,g=%d", ev, ow, eof, g)
 }
+
+// how often the end of a connection is polled for (2 ms apart)
+var tcpPolls = 5000
+
+// how long the client waits for the server to close the socket
+var tcpReadWait = 15 * time.Second
 
 var tcpTails = []string{"", "", "", "09000001", "04", "0400", "040000", "0400000a4142", "ff", "04ffffff", "00000000", "06000000"}
 
